@@ -77,7 +77,7 @@ UnbondAfter(st, J, stk, ub, t) ==
 
 -----------------------------------------------------------------------------
 (* part (a): snapshots *)
-PowerOf(share, total) == (share * MaxPower) \div total
+PowerOf(share, total) == IF total = 0 THEN 0 ELSE (share * MaxPower) \div total   \* total = 0 only in observed snapshots of a defective tree (never in the model)
 Threshold == (2 * MaxPower) \div 3          \* thresholdForConsensus = 2863311530 = (2 * 2^32) \div 3
 
 Current == IF lastId \in DOMAIN snaps THEN snaps[lastId] ELSE NoSnap
